@@ -6,6 +6,7 @@ import (
 	"go/token"
 	"go/types"
 	"slices"
+	"os"
 	"strings"
 	"sync"
 
@@ -82,6 +83,8 @@ func (p *Program) info(fn *ssa.Function) *fnInfo {
 }
 
 // ---------- control-flow signals (Go panics used internally) ----------
+
+var traceFn = os.Getenv("VERIF_TRACE_FN")
 
 type targetPanic struct{ v Value } // a panic of the interpreted program
 
@@ -507,6 +510,9 @@ func (fr *frame) loopCheck(instr ssa.Instruction) {
 	}
 	fr.loopCount[instr]++
 	if fr.loopCount[instr] > fr.e.P.cfg.MaxSymLoop {
+		if fr.e.P.cfg.SymLoopCut { // declared bound: the rest of this path is outside the claim, everything before it was checked
+			fr.e.cut(fmt.Sprintf("loop unwinding limit %d at %s", fr.e.P.cfg.MaxSymLoop, fr.e.P.fset.Position(instr.Pos())))
+		}
 		panic(pathEnd{endBound, fmt.Sprintf("symbolic branch visited > %d times in one frame at %s", fr.e.P.cfg.MaxSymLoop, fr.e.P.fset.Position(instr.Pos()))})
 	}
 }
@@ -651,7 +657,17 @@ func (e *Exec) runFrame(fr *frame) {
 			if e.steps > e.P.cfg.MaxSteps {
 				panic(pathEnd{endBound, fmt.Sprintf("more than %d instructions on one path", e.P.cfg.MaxSteps)})
 			}
-			if e.visitInstr(fr, instrs[i]) == kReturn {
+			k := e.visitInstr(fr, instrs[i])
+			if traceFn != "" && strings.Contains(fr.fn.Name(), traceFn) {
+				if v, ok := instrs[i].(ssa.Value); ok {
+					if _, has := fr.info.index[v]; has {
+						fmt.Fprintf(os.Stderr, "TRACE %s: %s = %s  => %.120s\n", fr.fn.Name(), v.Name(), instrs[i], describe(fr.get(v)))
+					}
+				} else {
+					fmt.Fprintf(os.Stderr, "TRACE %s: %s\n", fr.fn.Name(), instrs[i])
+				}
+			}
+			if k == kReturn {
 				return
 			}
 		}
